@@ -675,7 +675,7 @@ func indexInRange(idx ssa.Value, arrLen int64) (bool, string) {
 // C01.R3 snapshot isolation.
 
 func checkSnapshot(c *Ctx, p *Prog, R *BusRoles, rule string) {
-	f := R.PublishFn
+	f := R.LoopFn
 	header := dispatchLoopHeader(R)
 	if header == nil {
 		c.Unresolved(rule, "UNRESOLVED-ANCHOR/dispatch-loop", "no dispatch loop in PublishContext")
@@ -700,8 +700,17 @@ func checkSnapshot(c *Ctx, p *Prog, R *BusRoles, rule string) {
 		return
 	}
 	pos := p.Pos(header.Instrs[0].Pos())
-	// the snapshot may be taken by a helper: continue inside it on what it returns
 	ix := newIPIndex(p)
+	// the loop may sit in a helper that is handed the snapshot: continue at the call site
+	if prm, isPrm := stripConv(ranged).(*ssa.Parameter); isPrm {
+		if up := ix.Up(prm); up != ssa.Value(prm) {
+			ranged = up
+			if in, ok := up.(ssa.Instruction); ok {
+				f = in.Parent()
+			}
+		}
+	}
+	// the snapshot may be taken by a helper: continue inside it on what it returns
 	if rets := ix.Returned(ranged, 0); len(rets) == 1 {
 		if call, ok := stripConv(ranged).(*ssa.Call); ok {
 			f = call.Common().StaticCallee()
